@@ -86,7 +86,8 @@ static inline int remove_node(m_bst_t *l, bst_node **elem) {
 }
 
 static int ptrcmp(void *userdata, void *node_data) {
-    return (userdata - node_data);
+    /* Do not return the (truncated to int) pointer difference */
+    return (userdata > node_data) - (userdata < node_data);
 }
 
 static inline int traverse_preorder(bst_node *node, m_bst_cb cb, void *userptr) {
